@@ -183,6 +183,15 @@ func (p *NamePacket) UnmarshalPacketBody(buf *Buffer) (err error) {
 		return buf.Err
 	}
 
+	// Each name entry occupies at least 12 bytes (two length-prefixed
+	// strings and the attribute flags), so a count larger than
+	// buf.Len()/12 cannot fit and is malformed.
+	if count < 0 || count > buf.Len()/12 {
+		buf.off = len(buf.b)
+		buf.Err = ErrShortPacket
+		return buf.Err
+	}
+
 	*p = NamePacket{
 		Entries: make([]*NameEntry, 0, count),
 	}
